@@ -38,8 +38,37 @@ def _rows(cols):
   return tuple(zip(*cols))
 
 
+class Rows:
+  """The sorted rows of a long result as ONE leaf value.  The library walks a
+  list-valued result element by element every time it assembles `agg_result`
+  (tree.copy_and_update: ~0.1 s for 300 rows), which is irrelevant to C03; an
+  object that is neither a Sequence nor a Mapping is a leaf to it."""
+  __slots__ = ('rows',)
+
+  def __init__(self, rows):
+    self.rows = tuple(rows)
+
+  def __eq__(self, other):
+    return isinstance(other, Rows) and self.rows == other.rows
+
+  def __hash__(self):
+    return hash(self.rows)
+
+  def __repr__(self):
+    return 'Rows%r' % (self.rows,)
+
+
+LIST_RESULT_MAX = 16      # every dataset of <= 7 records has <= 10 rows
+
+
+def _result(rows):
+  rows = sorted(rows)
+  return rows if len(rows) <= LIST_RESULT_MAX else Rows(rows)
+
+
 class Bag:
-  """Immutable state: the tuple of every row seen; result = sorted rows."""
+  """Immutable state: the tuple of every row seen; result = sorted rows (a
+  list up to LIST_RESULT_MAX rows, one `Rows` leaf beyond)."""
 
   def create_state(self):
     return ()
@@ -54,7 +83,7 @@ class Bag:
     return out
 
   def get_result(self, state):
-    return sorted(state)
+    return _result(state)
 
 
 class BagInPlace(Bag):
@@ -111,7 +140,7 @@ class BagRacy(Bag):
     return out
 
   def get_result(self, state):
-    return sorted(state.rows)
+    return _result(state.rows)
 
 
 class BagMetric:
@@ -130,7 +159,7 @@ class BagMetric:
     self.batches += other.batches
 
   def result(self):
-    return sorted(self.rows)
+    return _result(self.rows)
 
 
 # ---- data sources ---------------------------------------------------------------
